@@ -31,7 +31,7 @@ c13(S, T, res(I, C)) :- c13i(S, T, I), c13c(S, T, C).
 c13i(S, T, r(O,A,B,C,D,E,F,G,H,I)) :-
     compare(O, S, T),
     ( S == T -> A = 1 ; A = 0 ), ( S \== T -> B = 1 ; B = 0 ),
-    ( S @> T -> C = 1 ; C = 0 ), ( S @=< T -> D = 1 ; D = 0 ),
+    ( S @< T -> C = 1 ; C = 0 ), ( S @=< T -> D = 1 ; D = 0 ),
     ( S @> T -> E = 1 ; E = 0 ), ( S @>= T -> F = 1 ; F = 0 ),
     ( compare(<, S, T) -> G = 1 ; G = 0 ), ( compare(=, S, T) -> H = 1 ; H = 0 ),
     ( compare(>, S, T) -> I = 1 ; I = 0 ).
